@@ -6,7 +6,7 @@ TECHNIQUE = "Lean 4 theorems over an executable simulator model (any policy = de
 
 
 def run(chk: common.Check):
-    e2e.run_suite(chk, "C01", streams=("regular", "dag", "batch", "regular"))
+    e2e.run_suite(chk, "C01", streams=("regular", "dag", "batch", "profile"))
 
 
 def replay(path) -> int:
